@@ -39,11 +39,21 @@ def boundary_cases(ck, tier):
         out.append(c)
         k += 1
   # the data object served an analysis over a longer window first; budget range on the short window
-  for j in range(common.sz(tier, 6, 60)):
+  for j in range(common.sz(tier, 10, 60)):
     c = search.gen_case(ck.seed * 11 + 500 + j, tier, max_geos=5)
     c['par'] = dict(c['par'], n_pretest_max=12)
+    if j % 3 != 2:
+      # the older part of the history is at another level and noisier (some geos carried three times their recent
+      # volume): required budgets over the long window differ markedly from those over the analysis window
+      nd, n = len(c['rows'][0]), len(c['rows'])
+      half = nd // 2
+      rj = __import__('random').Random(ck.seed * 11 + 500 + j)
+      for g in rj.sample(range(n), max(1, n // 2)):
+        c['rows'][g] = [(v * 3 + rj.choice([-9.0, 0.0, 9.0])) if t < half else v for t, v in enumerate(c['rows'][g])]
+      c['par']['n_pretest_max'] = max(c['par']['n_test'] + 3, nd - half)
+      c.pop('drift', None)
     c['want_budget'] = True
-    c['budget_mode'] = 'hi-bites' if j % 2 else 'lo-bites'
+    c['budget_mode'] = ['hi-bites', 'lo-bites', 'pair-median-lo', 'pair-median-hi', 'pair-median-lo'][j % 5]
     c['history'] = 'longer-window-first'
     out.append(c)
   # group sizes whose ratio equals a bound in exact arithmetic but not in binary64 (1 + 2/3 < 5/3, 3/5 < 1/(1 + 2/3))
